@@ -116,6 +116,38 @@ fn eval(f: DefaultFunction, forces: u32, args: &[BVal], v: Variant) -> (Got, i64
     }
 }
 
+/// every Data value inside a result constant
+fn data_parts(c: &uplc::ast::Constant, out: &mut Vec<uplc::PlutusData>) {
+    use uplc::ast::Constant as K;
+    match c {
+        K::Data(d) => out.push(d.clone()),
+        K::ProtoList(_, xs) => xs.iter().for_each(|x| data_parts(x, out)),
+        K::ProtoPair(_, _, a, b) => {
+            data_parts(a, out);
+            data_parts(b, out);
+        }
+        _ => {}
+    }
+}
+
+/// `serialiseData` of the implementation applied to this very representation of a Data value
+fn impl_serialise(d: &uplc::PlutusData) -> Result<Vec<u8>, String> {
+    let term: Term<NamedDeBruijn> = Term::Apply {
+        function: std::rc::Rc::new(Term::Builtin(DefaultFunction::SerialiseData)),
+        argument: std::rc::Rc::new(Term::Constant(std::rc::Rc::new(uplc::ast::Constant::Data(d.clone())))),
+    };
+    let program = Program { version: (1, 1, 0), term };
+    match guarded(move || program.eval(huge_budget()).result) {
+        Ok(Ok(Term::Constant(c))) => match c.as_ref() {
+            uplc::ast::Constant::ByteString(b) => Ok(b.clone()),
+            other => Err(format!("{:?}", other)),
+        },
+        Ok(Ok(t)) => Err(t.to_pretty()),
+        Ok(Err(e)) => Err(error_kind(&e)),
+        Err(p) => Err(p),
+    }
+}
+
 fn short_term(t: &Term<NamedDeBruijn>) -> String {
     let s = t.to_pretty().split_whitespace().collect::<Vec<_>>().join(" ");
     if s.chars().count() > 160 { format!("{}…", s.chars().take(160).collect::<String>()) } else { s }
@@ -224,6 +256,30 @@ fn check_line(line: &str, l: &mut Local) {
                             });
                         } else {
                             l.distinct_results.insert(vcore::evid::fnv(&format!("{name}{}", want_j)));
+                            // The value is right; is it *represented* the way the rest of the
+                            // machine expects (Data has several encodings of one value: compact
+                            // vs general constructor tags, small vs big integers)?  Observable
+                            // through serialiseData: the result as the builtin built it must
+                            // serialise like the same value built from scratch.
+                            if v == Variant::A {
+                                if let Term::Constant(c) = t {
+                                    let mut parts = vec![];
+                                    data_parts(c, &mut parts);
+                                    for d in parts.iter().take(4) {
+                                        l.evaluations += 2;
+                                        let fresh = vcore::rterm::to_impl_data(&vcore::rterm::from_impl_data(d));
+                                        let (a, b) = (impl_serialise(d), impl_serialise(&fresh));
+                                        if a != b {
+                                            l.violations.push(Violation {
+                                                signature: format!("spec-mismatch|{name}|result-data-not-in-canonical-representation"),
+                                                what: format!("[(builtin {name}) {}] returns the right Data value {} but in a representation that serialiseData encodes as {:?} instead of {:?}", argtxt(), vcore::rterm::show_data(&vcore::rterm::from_impl_data(d)), a.map(hex::encode), b.map(hex::encode)),
+                                                case: case(v.name()),
+                                            });
+                                            break;
+                                        }
+                                    }
+                                }
+                            }
                         }
                     }
                     Got::Panic(_) => unreachable!(),
